@@ -185,13 +185,17 @@ void wlThread(rt::Rng rng) {
     for (int i = 0; i < n; ++i) {
         Thread t;
         int spin = (int) rng.below(3000);
-        unsigned kind = (unsigned) rng.below(3);
+        unsigned kind = (unsigned) rng.below(4);
+        long plainResult = 0;   // written by the callable, read by the owner once isFinished() says so (no join yet)
         if (kind == 0) t.start(new PollRunnable(&sink, (unsigned) spin));
         else if (kind == 1) t.start([&sink, spin] { long l = 0; for (int k = 0; k < spin; ++k) l += k; sink.fetch_add(l, std::memory_order_relaxed); });
-        else t.start(&threadFn, sink, spin);
+        else if (kind == 2) t.start(&threadFn, sink, spin);
+        else t.start([&plainResult, spin] { long l = 1; for (int k = 0; k < spin; ++k) l += k; plainResult = l; });
         C.threadStarts.fetch_add(1, std::memory_order_relaxed);
-        if (rng.chance(700)) {
+        if (kind == 3 || rng.chance(700)) {
             while (!t.isFinished()) { C.threadPolls.fetch_add(1, std::memory_order_relaxed); if (t.isRunning() && rng.chance(300)) sched_yield(); }
+            // "isFinished() becomes true only after the callable has returned": its results may be used now
+            if (kind == 3) sink.fetch_add(plainResult, std::memory_order_relaxed);
         }
         t.join();
     }
